@@ -631,11 +631,25 @@ fn finish(g: &mut G, profile_name: &str, seed: u64, mut actors: Vec<ActorSpec>, 
                             });
                         }
                     }
-                    Op::Send {
-                        slot,
-                        kind,
-                        mty,
-                        body: Body { uid, flags, steps },
+                    if g.r.chance(6) && !matches!(kind, SendKind::AskJoin) {
+                        let defer = match g.r.below(4) {
+                            0 => 0,
+                            1 => 1,
+                            _ => 2 * g.r.range(1, 3),
+                        };
+                        Op::SendDeferred {
+                            slot,
+                            kind,
+                            body: Body { uid, flags: 0, steps },
+                            defer,
+                        }
+                    } else {
+                        Op::Send {
+                            slot,
+                            kind,
+                            mty,
+                            body: Body { uid, flags, steps },
+                        }
                     }
                 }
                 5 if !strong.is_empty() => Op::Stop {
